@@ -149,6 +149,7 @@ def run(ctx):
     ctx.correspondence("Model.Gen3.permute vs the argument order the evaluators actually used (read back from paths)", len(cases), mism)
     no_path_cases(ctx, S, ns)
     spec_reading_cases(ctx)
+    no_switch_cases(ctx, S)
     ctx.explanation = ("Theorems for an ARBITRARY tracer: the three evaluators compute the same outcome whenever they have the same spec; folding "
                        "returns a path only if the run-time routes return that path; no spec / non-device callee / failing kernel give no path on "
                        "any route; reversed wrapper = reversed path; every permutation of the keyword pairs gives the signature-ordered argument "
@@ -173,6 +174,45 @@ def pos_text(ap):
         else:
             out.append(f"S({a[1]},{a[4]},{a[5]})")
     return " ".join(out)
+
+
+def no_switch_cases(ctx, S):
+    """kernels that never switch a tone (their trace is a single waypoint segment), forward and reversed, on every route"""
+    ksrc = ('@tweezer\ndef kmv(p0: float, p1: float):\n    action.set_loc(grid.from_positions([p0], [0.0]))\n'
+            '    action.move(grid.from_positions([p1], [0.0]))\n    action.move(grid.from_positions([p0 + p1], [1.0]))\n')
+    k1src = '@tweezer\ndef kone(p0: float, p1: float):\n    action.set_loc(grid.from_positions([p0], [p1]))\n'
+    ns = {}
+    ns.update({k: v for k, v in kernels.define(ksrc).items() if k == "kmv"})
+    ns.update({k: v for k, v in kernels.define(k1src).items() if k == "kone"})
+    n_ok = 0
+    for kname in ("kmv", "kone"):
+        for callee, rev in (("f", False), ("r", True)):
+            direct = tc.abstract_path(tc.run_impl(ns[kname], (1.0, 3.0), S)[1])
+            if rev:
+                from props.c02 import _rev_abs
+                direct = _rev_abs(direct)
+            want = pos_text(direct)
+            for rname, dec, plain, byparam in ROUTES:
+                call = {False: f"{callee}(1.0, p1=3.0)", True: f"{callee}(x0, p1=x1)", "mixed": f"{callee}(1.0, p1=x1)"}[byparam]
+                src = (f"@move{dec}\ndef main({'x0: float, x1: float' if byparam else ''}):\n    f = schedule.device_fn({kname}, [0], [0])\n"
+                       f"    r = schedule.reverse(f)\n    {call}\n")
+                try:
+                    m = kernels.define(src, S=S, **ns)["main"]
+                    st, evs, extra = events.run_events(m, (1.0, 3.0) if byparam else (), S, plain=plain)
+                except Exception as e:
+                    st, evs, extra = "err", [], f"{type(e).__name__}: {e}"
+                ctx.evaluations += 1
+                rep = {"kernel": ksrc if kname == "kmv" else k1src, "main": src, "route": rname}
+                if st != "ok" or len(evs) != 1 or evs[0][0] != "play":
+                    ctx.fail({"kind": "no-path", "route": rname, "switch_free_kernel": True}, rep, f"{rname}: switch-free kernel did not play a path: {extra}")
+                    continue
+                got = pos_text(tc.abstract_path(evs[0][1].path))
+                if got != want:
+                    ctx.fail({"kind": "wrong-path", "route": rname, "switch_free_kernel": True, "reversed": rev}, rep,
+                             f"{rname}: {'reversed ' if rev else ''}switch-free kernel {kname} gave {got[:120]} expected {want[:120]}")
+                else:
+                    n_ok += 1
+    ctx.count("switch-free kernels x routes x fwd/rev: agree", n_ok)
 
 
 def spec_reading_cases(ctx):
